@@ -37,3 +37,9 @@ pub fn peer_info(peer: &KademliaPeer) -> (PeerId, [u8; 32], ConnectionType, usiz
         peer.address_store.addresses.len(),
     )
 }
+
+/// Set the connection type of a routing-table entry, as `Kademlia::disconnect_peer` does
+/// through `KBucketEntry::Occupied` (the field is `pub(super)`).
+pub fn set_connection(entry: &mut KademliaPeer, connection: ConnectionType) {
+    entry.connection = connection;
+}
